@@ -138,12 +138,39 @@ var c01Graphs = map[string]func() *Graph{
 		}
 		return g
 	},
-	"q1": graphQ1,
-	"q2": graphQ2,
+	// documents past the sizes at which an implementation might start to batch, slice or parallelise its input
+	"tt3x86":  func() *Graph { return replicate(TruthTableGraph(3, true), 86) },  // 2064 nodes
+	"tt3x171": func() *Graph { return replicate(TruthTableGraph(3, true), 171) }, // 4104 nodes
+	"q1x30":   func() *Graph { return replicate(graphQ1(), 30) },
+	"q1":      graphQ1,
+	"q2":      graphQ2,
 }
 
 var c01GraphCache = map[string]*Graph{}
 var c01DataCache = map[string]string{}
+
+// replicate copies a graph r times, renaming every node (and every link) with a replica suffix.
+func replicate(base *Graph, r int) *Graph {
+	g := &Graph{}
+	for k := 0; k < r; k++ {
+		suf := fmt.Sprintf("-r%d", k)
+		for _, n := range base.Nodes {
+			cp := g.Add(n.ID+suf, n.Types...)
+			for _, p := range n.Props {
+				vals := make([]any, len(p.Vals))
+				for i, v := range p.Vals {
+					if ref, ok := v.(Ref); ok {
+						vals[i] = Ref(string(ref) + suf)
+					} else {
+						vals[i] = v
+					}
+				}
+				cp.P(p.Pred, vals...)
+			}
+		}
+	}
+	return g
+}
 
 func c01Graph(name string) (*Graph, string) {
 	if g, ok := c01GraphCache[name]; ok {
@@ -158,7 +185,7 @@ func c01Graph(name string) (*Graph, string) {
 func init() {
 	Register(Meta{
 		ID: "C01", Level: "exploration",
-		Rule:        "family prop: every formula over not/and/or/if/if-else with <=S connective nodes and width<=3 over atoms p1..p3 (ordered operands, repetition, explicit and implicit `and` spellings), each decided on all 8 truth assignments x {target, non-target, doubly-typed} nodes; family quant: nested/atLeast k/atMost k over every inner formula of size<=1 on child atoms, in 9 connective contexts, and over every inner formula of size 2 (bare; thorough: also negated and under `and`), on 71 parents = atom bit x every multiset of <=3 children over 4 child kinds (children shared); family depth: quantifier chains and sibling quantifiers to depth 3 on a 3-layer graph; family atoms: documented atomic constraint kinds, plain and negated, on their value domains. Oracle = recursive classical evaluator written from the statement. Non-trivial = formula whose reference truth table over the target nodes has both values; distinct by rendered profile text.",
+		Rule:        "family prop: every formula over not/and/or/if/if-else with <=S connective nodes and width<=3 over atoms p1..p3 (ordered operands, repetition, explicit and implicit `and` spellings), each decided on all 8 truth assignments x {target, non-target, doubly-typed} nodes; family quant: nested/atLeast k/atMost k over every inner formula of size<=1 on child atoms, in 9 connective contexts, and over every inner formula of size 2 (bare; thorough: also negated and under `and`), on 71 parents = atom bit x every multiset of <=3 children over 4 child kinds (children shared); family depth: quantifier chains and sibling quantifiers to depth 3 on a 3-layer graph; families prop-huge / quant-huge / manyvals: one formula of each connective and quantifier kind on documents of 2064 (thorough 4104) and 2000+ nodes, and 33..129 (257) validations in one profile; family twins: formulas whose profiles have the same lines up to indentation, validated in turn; family atoms: documented atomic constraint kinds, plain and negated, on their value domains. Oracle = recursive classical evaluator written from the statement. Non-trivial = formula whose reference truth table over the target nodes has both values; distinct by rendered profile text.",
 		Assumptions: []string{"json-gold flattening of an already flat, fully expanded document is the identity on the graph (cross-checked by C05)"},
 	}, c01Gen, c01Run)
 }
@@ -204,8 +231,34 @@ func c01Gen(tier string, emit func(c01Case)) {
 			small = append(small, PropFormulas(s, []int{1, 2, 3}, 3)...)
 		}
 		packEmit("prop-large", "tt3x20", small)
+		// > 2048 (thorough: > 4096) nodes: one formula of each connective
+		A, B, C := FAtom(1), FAtom(2), FAtom(3)
+		huge := []*F{A, FNot(A), FAnd(A, B), FOr(A, B, C), FIf(A, B), FIfElse(A, B, C), FNot(FOr(FAnd(A, B), C))}
+		emit(c01Case{Fam: "prop-huge", Graph: "tt3x86", Forms: huge})
+		if tier == "thorough" {
+			emit(c01Case{Fam: "prop-huge", Graph: "tt3x171", Forms: huge})
+		}
+		// many validations in one profile (each is checked for its own set of reported nodes)
+		for _, k := range []int{33, 65, 129, 257} {
+			if tier != "thorough" && k > 129 {
+				continue
+			}
+			var fs []*F
+			for i := 0; i < k; i++ {
+				fs = append(fs, small[(i*7)%len(small)])
+			}
+			emit(c01Case{Fam: "manyvals", Graph: "tt3", Forms: fs})
+		}
 	}
 
+	// ---- family twins: formulas whose profiles differ only in indentation
+	{
+		A, B, C := FAtom(1), FAtom(2), FAtom(3)
+		emit(c01Case{Fam: "twins", Graph: "tt3", Forms: []*F{FOr(FAnd(A, B), C), FOr(FAnd(A), B, C)}})
+		emit(c01Case{Fam: "twins", Graph: "tt3", Forms: []*F{FAnd(FOr(A, B), C), FAnd(FOr(A), B, C)}})
+		emit(c01Case{Fam: "twins", Graph: "tt3", Forms: []*F{FOr(FAnd(A, B, C)), FOr(FAnd(A, B), C), FOr(FAnd(A), B, C)}})
+		emit(c01Case{Fam: "twins", Graph: "tt3", Forms: []*F{FAnd(FOr(A, FAnd(B, C))), FAnd(FOr(A, FAnd(B), C)), FAnd(FOr(A, FAnd(B)), C)}})
+	}
 	// ---- family 1w: wide connectives — and/or of width 4 (thorough: also 5) whose operands are atoms and
 	// two-member conjunctions / disjunctions over 4 atoms (operand multisets; the translator sorts operands)
 	{
@@ -265,6 +318,11 @@ func c01Gen(tier string, emit func(c01Case)) {
 		)
 	}
 	packEmit("quant", "q1", ctxs)
+	{
+		// the quantifier graph replicated 30 times (> 2048 nodes): one quantifier of each kind
+		in := FOr(FAtom(4), FNot(FAtom(5)))
+		emit(c01Case{Fam: "quant-huge", Graph: "q1x30", Forms: []*F{FNested(path, in), FAtLeast(2, path, in), FAtMost(1, path, in), FNot(FNested(path, FAtom(4))), FAnd(A, FAtLeast(1, path, FAtom(5)))}})
+	}
 
 	// ---- family 2c: quantifiers over inner formulas with two connectives (a disjunction of conjunctions, a negated
 	// conditional, ... — the translator expands the inner formula into several branches and has to combine the
@@ -485,6 +543,45 @@ func c01RunSibs(c *Ctx, cs c01Case) {
 	c.Sample(map[string]any{"family": "sibs", "siblings": q})
 }
 
+// c01RunTwins: the formulas of the case render to profiles with the same lines up to leading blanks (in YAML the
+// indentation IS the structure) but different meanings. Each is validated by its text, alone in its profile, in the
+// order 0,1,..,0,1,..: every verdict is the formula's own, whatever was validated just before.
+func c01RunTwins(c *Ctx, cs c01Case) {
+	g, data := c01Graph(cs.Graph)
+	strip := func(p string) string {
+		var l []string
+		for _, x := range strings.Split(p, "\n") {
+			l = append(l, strings.TrimSpace(x))
+		}
+		return strings.Join(l, "\n")
+	}
+	base := strip(c01Profile([]*F{cs.Forms[0]}))
+	for _, f := range cs.Forms[1:] {
+		if strip(c01Profile([]*F{f})) != base {
+			panic("harness: C01 twins do not render to the same lines: " + f.String())
+		}
+	}
+	for round := 0; round < 2; round++ {
+		for _, f := range cs.Forms {
+			obs, prof, res := c01Eval([]*F{f}, data)
+			c.Eval(1)
+			if res.Panic != nil || res.Err != nil {
+				c.Violate("C01 profile rejected [twins]: "+firstLine(res.ErrString()), prof, nil)
+				continue
+			}
+			exp, nontriv := c01Expected(f, g)
+			if nontriv {
+				c.Nontrivial("twins|" + f.String())
+			}
+			if !setEq(obs[0], exp) {
+				missing, extra := diffSets(exp, obs[0])
+				c.Violate("C01 verdict mismatch [twins]: a profile is taken for another one that differs only in indentation", fmt.Sprintf("formula %s (round %d; validated in turn with %d other formulas whose profiles have the same lines up to indentation)\nnot reported though failing: %v\nreported though satisfying: %v\nprofile:\n%s", f, round, len(cs.Forms)-1, missing, extra, prof), nil)
+			}
+		}
+	}
+	c.Outcome("twins ok")
+}
+
 func c01Run(c *Ctx, cs c01Case) {
 	if cs.Fam == "atoms" {
 		c01RunAtoms(c, cs)
@@ -492,6 +589,10 @@ func c01Run(c *Ctx, cs c01Case) {
 	}
 	if cs.Fam == "sibs" {
 		c01RunSibs(c, cs)
+		return
+	}
+	if cs.Fam == "twins" {
+		c01RunTwins(c, cs)
 		return
 	}
 	g, data := c01Graph(cs.Graph)
